@@ -122,6 +122,14 @@ fn seq_oracle() -> SeqOracle {
         use crate::harness::seq::Finding;
         let i = run.last();
         let c = &run.calls[i];
+        // every step is followed by quiescence: no Delete command is pending, so nothing may be left soft-deleted
+        // (a soft-deleted entry that nobody is going to remove reads as absent, cannot be put again and answers a
+        // delete as if it were held)
+        for e in run.after().store.iter().filter(|e| e.4) {
+            if run.before().entry(e.0).map_or(true, |b| !b.4) {
+                out.push(Finding::new("soft-deleted-entry-left-behind", "delete:soft-deleted-entry-at-quiescence", format!("after {} the store holds key {} soft-deleted although no delete is pending", c.op.short(), e.0)));
+            }
+        }
         let k = match &c.op {
             Op::Delete { k } => *k,
             _ => return,
@@ -163,7 +171,7 @@ fn seq_spec(ctx: &Ctx) -> SeqSpec {
         world: Default::default(),
         prefix: vec![],
         alphabet: vec![put(1, 2), put_ttl(1, 3, 1500), del(1), put(2, 4), del(2), put_ttl(2, 1, 1000), adv(1000), adv(2000), Op::TickWait, get(1)],
-        depth: if ctx.quick() { 6 } else { 7 },
+        depth: if ctx.quick() { 8 } else { 10 },
         allow: None,
         oracle: seq_oracle(),
         keys: vec![1, 2],
